@@ -79,7 +79,10 @@ SubsStep(st, fr) ==
          ELSE [st EXCEPT !.nodes[fr.n].f = FALSE]
     [] fr.f = "fincall" ->      \* holding the callback cell: take() and call
          IF st.nodes[fr.n].f
-         THEN Push([st EXCEPT !.nodes[fr.n].f = FALSE], <<Bump(st.nodes[fr.n].b)>>) ELSE st
+         THEN LET nd == st.nodes[fr.n] IN     \* a > 0: the callback also sends item v into hot subject a (teardown feeding back)
+              Push([st EXCEPT !.nodes[fr.n].f = FALSE],
+                   <<Bump(nd.b)>> \o (IF nd.a > 0 THEN SubjEmit(st, nd.a, "N", nd.v) ELSE <<>>))
+         ELSE st
     [] fr.f = "rccheck" ->      \* ret = subject.is_empty()
          IF st.ret = B(TRUE) THEN Push([st EXCEPT !.ret = U], <<F1("sunsub", fr.n)>>) ELSE [st EXCEPT !.ret = U]
     [] fr.f = "optunsub" ->
